@@ -178,6 +178,26 @@ fn main() {
             });
         }
     });
+    // a second run on the state a first run left behind performs its own requested number of passes
+    {
+        let mut rng = mv::SplitMix64::new(rep.seed).fork(0xC16_7);
+        for k in 0..rep.tier.pick(300usize, 10_000usize) {
+            let o = mv::warm::warm_restart(&mut rng, k);
+            rep.case();
+            rep.nontrivial(hash_of(&("warm-restart", k)));
+            if let Some(e) = &o.failed {
+                rep.violation("second-run-on-a-reused-state:run-failed", json!({"heuristic": o.variant, "seed": o.seed, "error": e}));
+                continue;
+            }
+            rep.count("second_runs_on_a_reused_state", 1);
+            if o.second_run_passes != o.second_run_requested_passes || o.second_run_iterations != o.second_run_requested_passes {
+                rep.violation(
+                    "second-run-on-a-reused-state:wrong-number-of-passes",
+                    json!({"heuristic": o.variant, "seed": o.seed, "requested": o.second_run_requested_passes, "passes_observed_at_the_hook": o.second_run_passes, "iteration_counter_afterwards": o.second_run_iterations}),
+                );
+            }
+        }
+    }
     if rep.distinct_len("templates") < 21 {
         rep.inconclusive("not all 21 templates were exercised");
     }
